@@ -15,10 +15,10 @@ import (
 )
 
 type caseJSON struct {
-	Cfg     string
-	Events  []audgen.Event
-	Result  cmd.VerifAuditionResult
-	Shapes  map[string]string
+	Cfg    string
+	Events []audgen.Event
+	Result cmd.VerifAuditionResult
+	Shapes map[string]string
 }
 
 func coqStr(s string) string { return "\"" + strings.ReplaceAll(s, "\"", "\"\"") + "\"" }
@@ -49,7 +49,7 @@ func main() {
 	if *tier == "thorough" {
 		n = 8000
 	}
-	g := &audgen.Gen{R: rng, Modalities: cmd.VerifModalities(), PErrExpr: 0.06, PErrOther: 0.15, MaxMembers: 3, WithCollect: false, SimpleExpect: 0.4, ConstConds: true}
+	g := &audgen.Gen{R: rng, Modalities: cmd.VerifModalities(), PErrExpr: 0.06, PErrOther: 0.15, MaxMembers: 3, WithCollect: false, SimpleExpect: 0.4, ConstConds: true, LateStamps: true}
 	var predItems []string
 	var items []string
 	var cases []caseJSON
